@@ -60,6 +60,7 @@ SHAPES = {
     "d1": (dict(a=1, b=2, c=3), ("a", "b")),
     "d1w": (dict(a=1, b=2, c=3), ("b",)),
     "mat": (dict(a=2, b=3), ("a",)),
+    "matT": (dict(a=3, b=2), ("a",)),
 }
 
 
@@ -108,6 +109,9 @@ for m, absorbs in METHODS.items():
         _SPLIT_PARAMS.append({"method": m, "absorb": ab, "shape": "mat", "kind": "cplx",
                               "_tiers": ("quick", "thorough") if ab in ("both", "right", "auto", None) else ("thorough",)})
         _SPLIT_PARAMS.append({"method": m, "absorb": ab, "shape": "d1w", "kind": "cplx", "_tiers": ("thorough",)})
+        # strictly tall complex input (the accelerated kernels have separate tall / wide branches with explicit conjugations)
+        _SPLIT_PARAMS.append({"method": m, "absorb": ab, "shape": "matT", "kind": "cplx",
+                              "_tiers": ("quick", "thorough") if ab in ("both", "right", "left", None, "rfactor", "lfactor", "lorthog", "rorthog") else ("thorough",)})
 
 
 @obligation(PROP, params=_SPLIT_PARAMS, rounds=2, rounds2=3, timeout_s=400, max_rows=60000)
@@ -322,17 +326,25 @@ for n in (3, 4, 5):
                         continue
                     _TR_PARAMS.append({"n": n, "mode": mode, "max_bond": mb, "renorm": rn, "nzero": nz,
                                        "_tiers": ("quick", "thorough") if quick else ("thorough",)})
+# static truncation only: no dynamic cutoff (cutoff = 0.0 and the default -1.0), cap below / at / above the rank
+for n in (3, 4):
+    for mb in (-1, 1, 2, 3, 5):
+        for cut in (0.0, -1.0):
+            for mode in (4, 1):
+                _TR_PARAMS.append({"n": n, "mode": mode, "max_bond": mb, "renorm": 0, "nzero": 0, "cutoff": cut,
+                                   "_tiers": ("quick", "thorough") if (n == 4 and mode == 4) or mb in (1, 2) else ("thorough",)})
 
 
 @obligation(PROP, params=_TR_PARAMS, max_paths=3000, wall_s=500, timeout_s=700, branch_timeout_ms=30000)
-def truncation_rule(mk, n, mode, max_bond, renorm, nzero):
+def truncation_rule(mk, n, mode, max_bond, renorm, nzero, cutoff=None):
     """generic and numba truncation on symbolic singular values: minimal kept rank by the
     documented rule, never 0, never above the cap, honest error, renormalisation, agreement"""
     mk.encodes(decomp._trim_and_renorm_svd_result, decomp._trim_and_renorm_svd_result_numba,
                decomp._compute_number_svals_to_keep_numba, decomp._compute_svals_renorm_factor_numba,
                decomp._do_absorb, decomp._do_absorb_numba)
     s = _svals(mk, n, nzero)
-    cutoff = mk.scalar("cutoff", "pos")
+    static = cutoff is not None
+    cutoff = mk.scalar("cutoff", "pos") if cutoff is None else cutoff
     U = mk.array("U", (2, n))
     VH = mk.array("V", (n, 2))
     # --- numba variant (plain Python under NUMBA_DISABLE_JIT)
@@ -353,7 +365,9 @@ def truncation_rule(mk, n, mode, max_bond, renorm, nzero):
     # rule: uncapped count is the least admissible one
     m_rule = m
     capped = max_bond > 0 and m == max_bond
-    if not capped:
+    if static:
+        mk.same("static truncation keeps min(n, max_bond) values", m, n if max_bond <= 0 else min(n, max_bond))
+    elif not capped:
         mk.same(f"kept count {m} is the least satisfying the '{MODES[mode]}' rule", _rule_ok(s, cutoff, mode, m), True)
     else:
         # cap active: the rule alone would keep at least as many
@@ -389,6 +403,28 @@ def truncation_rule(mk, n, mode, max_bond, renorm, nzero):
         mk.note(f"generic variant raised {type(raised).__name__} for renorm={renorm}, mode={MODES[mode]}")
         mk.same(f"generic variant handles renorm={renorm} with cutoff_mode={MODES[mode]} like the accelerated one "
                 f"(raised {type(raised).__name__})", False, True)
+
+
+@obligation(PROP)
+def option_parsing_history(mk):
+    """parse_split_opts / parse_method_absorb are memoised: the parsed options of a call must not
+    depend on which (equal-hashing) spellings were parsed before it"""
+    mk.encodes(decomp.parse_split_opts, decomp.parse_method_absorb)
+    import itertools as _it
+    spell = [True, 1, 2, False, 0, None, 1.0]
+    for mode in ("abs", "rel", "sum2", "rsum2", "sum1", "rsum1"):
+        fresh = {}
+        for r in spell:
+            decomp.parse_split_opts.cache_clear()
+            fresh[repr(r)] = decomp.parse_split_opts("svd", "both", None, 1e-6, mode, r)
+        for order in _it.permutations(spell, 2):
+            decomp.parse_split_opts.cache_clear()
+            for r in order:
+                got = decomp.parse_split_opts("svd", "both", None, 1e-6, mode, r)
+                mk.same(f"cutoff_mode={mode}: renorm={r!r} parsed after {order[0]!r}", got, fresh[repr(r)])
+    decomp.parse_split_opts.cache_clear()
+    for a, b in ((None, "U,s,VH"), ("both", "Usq,sqVH"), ("left", "Us,VH"), ("right", "U,sVH")):
+        mk.same(f"absorb alias {b!r} parses like {a!r}", decomp.parse_method_absorb("svd", b), decomp.parse_method_absorb("svd", a))
 
 
 @obligation(PROP, params=[{"absorb": a, "n": 3} for a in (None, 0, 1, -1, 10, 11, -10, -11, 12, -12, 2)])
